@@ -85,7 +85,7 @@ Step(i, S) ==
   /\ h' = Append(h, i)
   /\ LET dec == IF MsgType(i) = "" THEN "allow" ELSE Decision(Cur, i.s, MsgType(i)) IN
      IF dec \in {"allow", "rewrite"} THEN Commit(S)
-     ELSE Commit(RefuseFx(Cur, i.s, TypeCode(MsgType(i)), i.req, dec, i.op = "publish" /\ ~i.o.ack))
+     ELSE Commit(RefuseFx(Cur, i.s, TypeCode(MsgType(i)), i.req, dec, SilentRefusal(i)))
 
 \* --------------------------------------------------------------------------
 \* inputs.  Random draws are bound by \E x \in {draw} so that each is made once
@@ -97,7 +97,7 @@ GJoin ==
   \E n \in 1..Len(Names) :
     /\ Names[n] \notin DOMAIN sess
     /\ \A m \in 1..(n-1) : Names[m] \in DOMAIN sess
-    /\ \E local \in R({TRUE, FALSE}), color \in R({"red", "blue", ""}), feats \in R(FeatSets),
+    /\ \E local \in (IF Mode = "disc" THEN W(<<FALSE, FALSE, FALSE, TRUE>>) ELSE R({TRUE, FALSE})), color \in R({"red", "blue", ""}), feats \in R(FeatSets),
           lid \in R({"u1", "u2"}), rid \in R({"alice", "bob", "carol"}) :
        \E qs \in W(IF Mode = "stall" THEN <<0, 1, 2, 2>> ELSE <<0>>) :
        LET s == Names[n]
@@ -188,7 +188,11 @@ EaSet == {<<>>, <<[a |-> "authrole", v |-> <<"trusted", "admin">>]>>, <<[a |-> "
           <<[a |-> "authid", v |-> <<"bob", "u2">>], [a |-> "color", v |-> <<"red", "blue">>]>>}
 
 GSubscribe ==
-  \E s \in J : \E bad \in R(1..6) : \E k \in R(IF bad = 1 THEN BadKeys ELSE IF bad = 2 THEN MetaKeys ELSE Keys) :
+  \E s \in J : \E bad \in R(1..6) :
+  \E k \in R(IF Mode = "disc" THEN {<<U_ab, "">>, <<U_a, "prefix">>, <<U_adot, "wildcard">>}
+             \* realms with event history: mostly the configured subscriptions (subscribers come and go)
+             ELSE IF Mode = "hist" /\ DOMAIN hist # {} /\ bad > 2 THEN {<<kk[1], IF kk[2] = "exact" THEN "" ELSE kk[2]>> : kk \in DOMAIN hist}
+             ELSE IF bad = 1 THEN BadKeys ELSE IF bad = 2 THEN MetaKeys ELSE Keys) :
     LET i == [In0 EXCEPT !.op = "subscribe", !.s = s, !.req = N, !.uri = k[1], !.o = [O0 EXCEPT !.match = k[2]]]
     IN Step(i, SubscribeFx(Cur, s, N, k[1], k[2], NextId(used.sub)))
 
@@ -196,14 +200,16 @@ GUnsubscribe ==
   \E s \in J :
     LET ids  == {subs[k].id : k \in DOMAIN subs} \cup {NextId(used.sub) + 3}
         mine == {subs[k].id : k \in {kk \in DOMAIN subs : s \in subs[kk].members}}
-    IN \E own \in R(1..3) : \E id \in R(IF mine # {} /\ own # 1 THEN mine ELSE ids) :
+        hmine == mine \cap {subs[k].id : k \in DOMAIN hist}
+    IN \E own \in R(1..3) : \E id \in R(IF hmine # {} /\ own = 2 THEN hmine ELSE IF mine # {} /\ own # 1 THEN mine ELSE ids) :
          LET i == [In0 EXCEPT !.op = "unsubscribe", !.s = s, !.req = N, !.id = id]
          IN Step(i, UnsubscribeFx(Cur, s, N, id))
 
 GPublish ==
-  \E s \in J : \E bad \in R(1..8) : \E u \in R(IF bad = 1 THEN BadURIs ELSE Targets) :
-  \E kind \in R(1..8), xl \in R(SidLists), el \in R(SidLists), xa \in R(XaSet), ea \in R(EaSet),
-     ack \in (IF Mode = "stall" THEN {TRUE} ELSE R(BOOLEAN)), xme \in W(<<"", "", "t", "f", "f">>), dme \in W(<<FALSE, FALSE, TRUE>>) :
+  \E s \in J : \E bad \in R(1..8) : \E u \in R(IF Mode = "disc" THEN {U_ab, U_abc} ELSE IF bad = 1 THEN BadURIs ELSE Targets) :
+  \E kind \in (IF Mode = "disc" THEN R({7, 8}) ELSE R(1..8)), xl \in R(SidLists), el \in R(SidLists), xa \in R(XaSet), ea \in R(EaSet),
+     ack \in (IF Mode = "stall" THEN {TRUE} ELSE R(BOOLEAN)), xme \in W(<<"", "", "t", "f", "f">>),
+     dme \in (IF Mode = "disc" THEN W(<<TRUE, TRUE, TRUE, FALSE>>) ELSE W(<<FALSE, FALSE, TRUE>>)) :
     LET o == [O0 EXCEPT !.ack = ack, !.xme = xme, !.dme = dme,
                         !.xl = IF kind \in {1, 2} THEN xl ELSE <<>>,
                         !.hx = kind \in {1, 2},
@@ -284,9 +290,10 @@ InvIds(s) == {calls[c].inv : c \in {cc \in DOMAIN calls : calls[cc].callee = s}}
 
 \* kill-mode cancel of an own pending call (the caller then waits for the callee)
 GCancelKill ==
-  LET mine == {c \in DOMAIN calls : c[1] \in J /\ ~calls[c].canceled} IN
+  LET mine == {c \in DOMAIN calls : c[1] \in J /\ ~calls[c].canceled}
+      deaf == {c \in mine : sess[calls[c].callee].stalled} IN
   IF mine = {} THEN GCancel
-  ELSE \E c \in R(mine) :
+  ELSE \E c \in R(IF deaf # {} THEN deaf ELSE mine) :
          LET i == [In0 EXCEPT !.op = "cancel", !.s = c[1], !.req = c[2], !.o = [O0 EXCEPT !.mode = "kill"]]
          IN Step(i, CancelFx(Cur, c[1], c[2], "kill"))
 
@@ -465,7 +472,7 @@ PubArgs  == {p \in used.pub : p < 100000} \cup {77}
 
 GGetEvents ==
   \E s \in J : \E id \in R(IF DOMAIN hist # {} THEN {subs[k].id : k \in DOMAIN hist} \cup {NextId(used.sub) + 3} ELSE SubArgs) :
-  \E kind \in R(1..12), t \in R(EntryTimes), dt \in R({-1, 0, 1}), pb \in R(PubArgs), lim \in R(1..3), u \in R(Targets) :
+  \E kind \in R(1..20), t \in R(EntryTimes), dt \in R({-1, 0, 1}), pb \in R(PubArgs), pb2 \in R(PubArgs), lim \in R(1..3), u \in R(Targets) :
     LET tt == IF t + dt > 0 THEN t + dt ELSE 1
         f == CASE kind = 1  -> [F0 EXCEPT !.limit = lim]
                [] kind = 2  -> [F0 EXCEPT !.reverse = TRUE]
@@ -478,6 +485,15 @@ GGetEvents ==
                [] kind = 9  -> [F0 EXCEPT !.before_p = pb]
                [] kind = 10 -> [F0 EXCEPT !.until_p = pb]
                [] kind = 11 -> [F0 EXCEPT !.topic = u]
+               \* pairs of filters
+               [] kind = 12 -> [F0 EXCEPT !.topic = u, !.from_p = pb]
+               [] kind = 13 -> [F0 EXCEPT !.topic = u, !.after_p = pb]
+               [] kind = 14 -> [F0 EXCEPT !.topic = u, !.before_p = pb]
+               [] kind = 15 -> [F0 EXCEPT !.topic = u, !.until_p = pb]
+               [] kind = 16 -> [F0 EXCEPT !.from_p = pb, !.until_p = pb2]
+               [] kind = 17 -> [F0 EXCEPT !.after_p = pb, !.before_t = tt]
+               [] kind = 18 -> [F0 EXCEPT !.topic = u, !.from_t = tt]
+               [] kind = 19 -> [F0 EXCEPT !.from_t = tt, !.limit = lim]
                [] OTHER     -> F0
     IN MetaStep(s, [In0 EXCEPT !.uri = U_subscription_get_events, !.id = id, !.f = f])
 
@@ -543,6 +559,9 @@ AuthzSets == {<<[mt |-> "PUBLISH", who |-> "remote", dec |-> "deny"], [mt |-> "C
                 [mt |-> "CANCEL", who |-> "remote", dec |-> "deny"], [mt |-> "YIELD", who |-> "trusted", dec |-> "fail"]>>,
               <<[mt |-> "UNREGISTER", who |-> "any", dec |-> "fail"], [mt |-> "YIELD", who |-> "remote", dec |-> "rewrite"],
                 [mt |-> "PUBLISH", who |-> "local", dec |-> "deny"]>>,
+              <<[mt |-> "ERROR", who |-> "any", dec |-> "deny"], [mt |-> "CALL", who |-> "user", dec |-> "deny"]>>,
+              <<[mt |-> "ERROR", who |-> "remote", dec |-> "rewrite"], [mt |-> "ERROR", who |-> "trusted", dec |-> "fail"],
+                [mt |-> "PUBLISH", who |-> "any", dec |-> "deny"]>>,
               <<[mt |-> "PUBLISH", who |-> "any", dec |-> "allow"]>>}
 AuthCfgs == {[anon |-> an, methods |-> ms, lauth |-> la, crtmo |-> tmo] :
                an \in BOOLEAN, la \in BOOLEAN, tmo \in {2000, 60000},
